@@ -432,6 +432,21 @@ func (g *Gen) transCall(x *Expr, env *Env) TV {
 	case "fmtany":
 		a := g.trans(x.Args[0], env)
 		return TV{"(fmt.any " + a.T + ")", SStr, types.Typ[types.String]}
+	case "offof":
+		a := g.trans(x.Args[0], env)
+		if a.S != SSlc {
+			panic(specErr(x, "offof needs a slice"))
+		}
+		return TV{"(sl_off " + a.T + ")", SInt, types.Typ[types.Int]}
+	case "rawat":
+		// rawat(s, j): element j of the backing array of s (absolute index, not relative to the slice offset)
+		a := g.trans(x.Args[0], env)
+		j := g.trans(x.Args[1], env)
+		var et types.Type = types.Typ[types.Uint8]
+		if sl, ok := typeUnder(a.Type).(*types.Slice); ok {
+			et = sl.Elem()
+		}
+		return TV{"(select (select " + env.heap(g.arrHeap(et)) + " (sl_arr " + a.T + ")) " + j.T + ")", sortOf(et), et}
 	case "arrof":
 		a := g.trans(x.Args[0], env)
 		if a.S != SSlc {
